@@ -198,6 +198,10 @@ func extractTarDirectory(dirPath, dirName string, r io.Reader, buf []byte, prese
 					// resolve the target as validated, not against the
 					// working directory of the process
 					target = filepath.Join(filepath.Dir(filePath), target)
+				} else {
+					// link the path that was validated, not one that
+					// passes through symbolic links and ".." elements
+					target = filepath.Clean(target)
 				}
 				err = os.Link(target, filePath)
 			}
